@@ -242,7 +242,7 @@ def gen_spec(rng, slot_index, swarm):
         if rng.random() < 0.3:
             lat["fontsize"] = rng.choice(["10pt", "12pt"])
     if kind == "n":
-        scale = "own_linear"
+        scale = "own_linear" if rng.random() < 0.85 else "own_linear_round"
     else:
         scale = rng.choices(["default", "own_time"], weights=[swarm["default_p"], 1 - swarm["default_p"]])[0]
     return {"backend": backend, "items": items, "options": opts, "scale": scale}
@@ -266,7 +266,7 @@ def gen_plan(rng, tier):
         # one options dict object re-used by the caller for all (time-scale) slots
         base = None
         for sp in slots:
-            if sp["scale"] != "own_linear":
+            if not sp["scale"].startswith("own_linear"):
                 if base is None:
                     base = copy.deepcopy(sp["options"])
                     base.pop("domain", None)
@@ -409,6 +409,9 @@ def materialise(spec):
         options["scale"] = TimeScale()
     elif spec["scale"] == "own_linear":
         options["scale"] = LinearScale()
+    elif spec["scale"] == "own_linear_round":
+        # a caller-supplied linear scale with a custom (rounding) interpolator
+        options["scale"] = LinearScale(interpolate=lambda a, b: (lambda t: round(a * (1 - t) + b * t)))
     return data, options
 
 
@@ -640,7 +643,7 @@ def _run(plan):
             bump("probe:%s_backend" % spec["backend"])
             if spec["scale"] == "own_time":
                 bump("probe:own_time_scale")
-            elif spec["scale"] == "own_linear":
+            elif spec["scale"].startswith("own_linear"):
                 bump("probe:own_linear_scale")
             live_default = sum(1 for j in range(n) if objs[j] is not None and specs[j]["scale"] == "default")
             if live_default >= 3:
